@@ -731,6 +731,19 @@ Theorem submissions_well_formed s e s' subs : Inv s -> step s e = (s', subs) ->
                             rows s' = replace_top (rows (tick_state s)) (sub_row sb rc).
 Proof. apply step_gen_submissions, build_builder_ok. Qed.
 
+(* when a tick goes on to build, the local table it builds from agrees with the Agglayer on every certificate's status:
+   "last settled" / "in error" in sub_ok are the Agglayer's verdicts, not stale local ones *)
+Theorem local_view_is_agglayer_view s sb rc : Inv s -> built_ok s sb rc ->
+  forall r, In r (rows s) -> exists c, In c (agg s) /\ a_id c = cid r /\ a_height c = height r /\ a_st c = st r.
+Proof.
+  intros (Hh & Hcfg & Hc & Ha) (Hso & _) r Hr.
+  destruct (ag_rows s Ha r Hr) as (c & Hin & Hid & Hhh & Hlag). exists c. repeat split; try assumption.
+  symmetry. apply Hlag. destruct (rows s) as [|top rest] eqn:Er; [destruct Hr|].
+  destruct Hr as [<-|Hr].
+  - cbn [sub_ok] in Hso. destruct Hso as [(E & _)|(E & _)]; rewrite E; reflexivity.
+  - rewrite (chain_ok_below_settled _ _ _ _ Hc r Hr). reflexivity.
+Qed.
+
 (* ---------------- the settled certificates cover every exit exactly once, in chain order ---------------- *)
 Definition top_to (rs : list rowT) : N := match rs with [] => start_block | r :: _ => to r end.
 
